@@ -80,7 +80,7 @@ def run(tmp, seed, tier, ENV, HARNESS, overlay, tags, log):
     skipf, funcf = os.path.join(d, "skip.txt"), os.path.join(d, "funcs.txt")
     open(skipf, "w").write("".join("%x %x\n" % (a, b) for a, b in merged))
     open(funcf, "w").write("".join(("*" if n.startswith("runtime.morestack") else "") + "%x\n" % a for a, s, n in sorted(syms)))
-    e = dict(ENV, GODEBUG="asyncpreemptoff=1", GOMAXPROCS="1")
+    e = dict(ENV, GODEBUG="asyncpreemptoff=1" + ("," + ENV["VERIF_GODEBUG_EXTRA"] if ENV.get("VERIF_GODEBUG_EXTRA") else ""), GOMAXPROCS="1")
 
     def step(out, dump, only):
         plan = out + ".plan.json"
